@@ -21,12 +21,18 @@ structure SReq where
   body : Bytes
   deriving Repr, BEq, DecidableEq
 
+def querySuffix : Option Str → Str
+  | some q => cQ :: q
+  | none => []
+
+def portSuffix : Option Str → Str
+  | some p => cColon :: p
+  | none => []
+
 /-- the request as it arrives -/
 def assemble (s : SReq) : ReqW :=
-  { method := s.method,
-    uri := s.path ++ (match s.query with | some q => cQ :: q | none => []),
-    version := s.version,
-    host := s.name ++ (match s.port with | some p => cColon :: p | none => []),
+  { method := s.method, uri := s.path ++ querySuffix s.query, version := s.version,
+    host := s.name ++ portSuffix s.port,
     https := s.https, remoteIp := s.remoteIp, headers := s.headers, body := s.body }
 
 /-- SERVER_PORT: the explicit port as a decimal number, the scheme default when absent or empty -/
